@@ -15,7 +15,10 @@ from pydsol.core import statistics as st
 from pydsol.core.interfaces import StatEvents
 
 AFFINE = [(Fraction(1), Fraction(0)), (Fraction(1, 1024), Fraction(2 ** 20)), (Fraction(2 ** 20), Fraction(-(2 ** 40))),
-          (Fraction(-5, 2), Fraction(1, 8))]
+          (Fraction(-5, 2), Fraction(1, 8)), (Fraction(2 ** 10), Fraction(2 ** 50))]
+# after every initialize() the observations come from another image: nothing of an earlier epoch (a stale running
+# mean of magnitude 2^50, say, against fractional values) may leak into the statistics of the next one
+EPOCH_AFFINE = [(Fraction(-5, 2), Fraction(1, 8)), (Fraction(2 ** 10), Fraction(2 ** 50)), (Fraction(1), Fraction(0))]
 REL = 1e-9
 EPS = 2.0 ** -52
 
@@ -124,6 +127,7 @@ class StatReplay:
     def __init__(self, kind, variant, affine, tscale=1.0):
         self.kind, self.variant = kind, variant
         self.a, self.b = affine
+        self.epoch = 0
         self.tscale = tscale           # timestamps / weights are scaled by a power of two (exact)
         cls = {("counter", "plain"): st.Counter, ("counter", "event"): st.EventBasedCounter, ("counter", "listened"): st.EventBasedCounter,
                ("tally", "plain"): st.Tally, ("tally", "event"): st.EventBasedTally, ("tally", "listened"): st.EventBasedTally,
@@ -139,6 +143,11 @@ class StatReplay:
                 if nm.endswith("_EVENT") and not nm.endswith("DATA_EVENT"):
                     self.obj.add_listener(et, self.col)
 
+    def feed(self):
+        """every second accepted observation of an 'event' variant goes through notify()"""
+        self.nfeed = getattr(self, "nfeed", 0) + 1
+        return self.nfeed % 3 != 0
+
     def x(self, v):
         r = self.a * v + self.b
         f = float(r)
@@ -151,6 +160,19 @@ class StatReplay:
         o = self.obj
         if a == "Initialize":
             r = call(o.initialize)
+            if self.kind != "counter" and not isinstance(r, Exception):
+                self.a, self.b = EPOCH_AFFINE[self.epoch % len(EPOCH_AFFINE)]
+                self.epoch += 1
+        elif a in ("Register", "RegisterW", "RegisterT") and self.variant == "event" and self.feed():
+            # the event-based statistic is a LISTENER: the observation arrives as the data event of a producer
+            from pydsol.core.pubsub import Event, TimedEvent
+            if a == "Register":
+                ev = Event(StatEvents.DATA_EVENT, self.x(op["x"]))
+            elif a == "RegisterW":
+                ev = Event(StatEvents.WEIGHT_DATA_EVENT, (float(op["w"] * self.tscale), self.x(op["x"])))
+            else:
+                ev = TimedEvent(float(op["t"] * self.tscale), StatEvents.TIMESTAMP_DATA_EVENT, self.x(op["x"]))
+            r = call(o.notify, ev)
         elif a == "Register":
             r = call(o.register, self.x(op["x"]))
         elif a == "RegisterW":
